@@ -366,10 +366,28 @@ class SimWorld:
             act = world.step(kind, rel)
             if act is not None and act["kind"] == "errno":
                 world._raise(act, path)
+            if kind in NAMESPACE:
+                r = orig(path, *a, **kw)
+                world._stamp_dirs(path, new_dir=(kind == "mkdir"))
+                return r
             return orig(path, *a, **kw)
 
         f.__name__ = getattr(orig, "__name__", kind)
         return f
+
+    def _stamp_dirs(self, *paths, new_dir=False):
+        """Directory mtimes follow the simulated clock too (archives record them)."""
+        t = self.stamp()
+        for path in paths:
+            try:
+                path = os.fspath(path)
+                if new_dir:
+                    O.utime(path, ns=(t, t))
+                parent = os.path.dirname(os.path.abspath(path))
+                if parent.startswith(self._prefix) or parent == self.root:
+                    O.utime(parent, ns=(t, t))
+            except (OSError, TypeError):
+                pass
 
     def _wrap2(self, kind, orig):
         world = self
@@ -391,7 +409,12 @@ class SimWorld:
                                  r2 if r2 is not None else "<outside>")
             if act is not None and act["kind"] == "errno":
                 world._raise(act, src)
-            return orig(src, dst, *a, **kw)
+            r = orig(src, dst, *a, **kw)
+            if kind == "symlink":
+                world._stamp_dirs(dst)
+            else:
+                world._stamp_dirs(*[p for p, rr in ((src, r1), (dst, r2)) if rr is not None])
+            return r
 
         f.__name__ = getattr(orig, "__name__", kind)
         return f
@@ -502,6 +525,8 @@ class SimWorld:
                     O.utime(raw.fileno(), ns=(t, t))
                 except OSError:
                     pass
+            if not existed:
+                self._stamp_dirs(path)
             line_buffering = False
             if buffering == 1 or (buffering < 0 and raw.isatty()):
                 buffering = -1
